@@ -67,6 +67,18 @@ def run(tier, seed):
             if 1 <= k <= 7 and (t, k) not in want:
                 want[(t, k)] = s
     ranges += [(s, t) for (t, k), s in want.items()]
+    # seeds whose successor is exactly at the edge of the acceptance region [0, top*divisor): last accepted value,
+    # first rejected value (quotient == top), and the largest value (the LCG is inverted to *select* the seed)
+    ainv = pow(1103515245, -1, MOD)
+    edge = []
+    for t in tops + [4, 6, 10, 100, 12345]:
+        d = MAXR // t
+        for target in (t * d - 1, t * d, t * d + 1, MAXR):
+            if 0 <= target < MOD:
+                s0 = ((target - 12345) * ainv) % MOD
+                edge.append((s0 + rng.choice((0, MOD)), t))
+    rng.shuffle(edge)
+    ranges += edge[:40 if q else len(edge)]
     ranges += [(rng.getrandbits(32), max(1, min(MAXR, rng.getrandbits(rng.randrange(1, 32))))) for _ in range(40 if q else 400)]
     disps = [(b, s, n) for b in (0, 1) for n in (1, 2, 3, 5, 8, 13) for s in (1, rng.getrandbits(32), rng.getrandbits(32))]
     if not q:
